@@ -34,13 +34,13 @@ def holder(sc):
     return cm
 
 
-def end_to_end(sc, which, cond, threads=1, mixed=False, layers=(0.0, 7000.0)):
+def end_to_end(sc, which, cond, threads=1, mixed=False, layers=(0.0, 7000.0), off_pos=None):
     """on-axis sensor duplicating off-axis sensor `which` of a three-sensor system built by the real covariance builder
     (optionally by its multi-process path, optionally with a different wavelength per off-axis sensor)"""
     n = 4
     yy, xx = np.indices((n, n))
     ring = ((xx - 1.5) ** 2 + (yy - 1.5) ** 2 <= 4.1).astype(float)
-    off_pos = [[10.0, 0.0], [-6.0, 8.0], [-5.0, -9.0]]
+    off_pos = off_pos or [[10.0, 0.0], [-6.0, 8.0], [-5.0, -9.0]]
     off_alt = [90000.0, 0.0, 90000.0]
     masks = [ring] * 4
     pos = [off_pos[which]] + off_pos
@@ -173,6 +173,25 @@ def run(run):
                 run.violation("reconstructor:normal-equations-on-retained-subspace", dict(case=c, conditioning=cond),
                               dict(kind="singular", case=c, cond=cond))
                 break
+    # ---- the conditioning is RELATIVE to the largest singular value: the estimator does not depend on the units of the slopes
+    for c in cases[:40]:
+        C = np.array(c["C"], dtype=float)
+        non = c["non"]
+        for cond in (0.0, 1e-3, 0.05):
+            R1 = np.asarray(sc.create_tomographic_covariance_reconstructor(C.copy(), non, cond), float)
+            for scale in (1e-13, 1e-4, 1e3):
+                Rs = np.asarray(sc.create_tomographic_covariance_reconstructor(C * scale, non, cond), float)
+                n_sing += 1
+                if Rs.shape != R1.shape or not np.allclose(Rs, R1, rtol=0, atol=1e-7 * max(1.0, np.abs(R1).max())):
+                    run.violation("reconstructor:depends-on-the-units-of-the-covariance", dict(case=c, conditioning=cond, scale=scale,
+                                  max_dev=float(np.abs(Rs - R1).max()) if Rs.shape == R1.shape else None), dict(kind="scale", case=c, cond=cond, scale=scale))
+                    break
+            else:
+                continue
+            break
+        else:
+            continue
+        break
     # ---- auxiliary: end to end through the covariance builder, rebuilds on one object with the geometry changed in between
     e2e = []
     for which in (0, 1, 2):
@@ -183,6 +202,13 @@ def run(run):
                 run.violation("reconstructor:end-to-end-duplicate-sensor" + (":multiprocess-build" if threads > 1 else "")
                               + (":mixed-wavelengths" if mixed else ""), dict(duplicate_of=which, max_dev=dev),
                               dict(kind="e2e", which=which, threads=threads, mixed=mixed))
+    # guide stars ON the coordinate axes of the field (one direction component exactly zero) are directions like any other
+    for which in (0, 1, 2):
+        dev, cmo = end_to_end(sc, which, 0.0, 1, False, off_pos=[[12.0, 0.0], [0.0, 9.0], [-11.0, 0.0]])
+        e2e.append(dict(duplicate_of=which, asterism="axis-aligned", max_dev=dev))
+        if not dev <= 1e-3:
+            run.violation("reconstructor:end-to-end-duplicate-sensor:axis-aligned-guide-stars", dict(duplicate_of=which, max_dev=dev),
+                          dict(kind="e2e", which=which, off_pos=[[12.0, 0.0], [0.0, 9.0], [-11.0, 0.0]]))
     # the matrix the reconstructor is built from must be the configured atmosphere's: with two ELEVATED layers it is the sum of the two
     # single-layer matrices (every layer sees every sensor displaced by its own altitude times the direction)
     for which in (1, 2):
@@ -254,7 +280,14 @@ def replay(run, case):
             ok = False
         if not ok:
             run.violation("reconstructor:dead-offaxis-slope(singular-block,conditioning-0)", dict(case=c), case)
+    elif k == "scale":
+        c = case["case"]
+        C = np.array(c["C"], dtype=float)
+        R1 = np.asarray(sc.create_tomographic_covariance_reconstructor(C.copy(), c["non"], case["cond"]), float)
+        Rs = np.asarray(sc.create_tomographic_covariance_reconstructor(C * case["scale"], c["non"], case["cond"]), float)
+        if Rs.shape != R1.shape or not np.allclose(Rs, R1, rtol=0, atol=1e-7 * max(1.0, np.abs(R1).max())):
+            run.violation("reconstructor:depends-on-the-units-of-the-covariance", dict(case=c), case)
     elif k == "e2e":
-        dev, _ = end_to_end(sc, case["which"], 0.0, case.get("threads", 1), case.get("mixed", False), tuple(case.get("layers", (0.0, 7000.0))))
+        dev, _ = end_to_end(sc, case["which"], 0.0, case.get("threads", 1), case.get("mixed", False), tuple(case.get("layers", (0.0, 7000.0))), case.get("off_pos"))
         if not dev <= 1e-3:
             run.violation("reconstructor:end-to-end-duplicate-sensor", dict(max_dev=dev), case)
